@@ -17,13 +17,17 @@
     * ties in a sort key                  `sort_perm_of_distinct_keys`
     * sessions / events in any order      `popCurrent_perm`, `plugins_commute`, `unplugs_commute`,
                                           `eventsStage_perm`, `run_perm_sessions_partial`
-    * time shift by `k` periods           `updateSchedules_shift`, `body_shift`, `run_shift_partial`
+    * time shift by `k` periods           `updateSchedules_shift`, `run_shift` (the WHOLE simulator, `max_recompute`
+                                          = None), `run_shift_anchored` (any `max_recompute`, an event in period 0),
+                                          `run_shift_from` (from any related states, errors included);
+                                          event core only: `body_shift`, `run_shift_partial`
   `σ` is a list of station numbers that is a permutation of `0..n-1`; `reidx σ l d` reads the
   per-station list `l` in that order.  Helper lemmas: `AcnProofs/Lemmas/Equiv*.lean`.
 -/
 import AcnProofs.Lemmas.EquivPilots
 import AcnProofs.Lemmas.EquivShift
 import AcnProofs.Lemmas.EquivSimRun
+import AcnProofs.Lemmas.EquivSimShiftCap
 import AcnProofs.C08
 
 set_option linter.unusedSectionVars false
@@ -363,6 +367,222 @@ example (cfg : Cfg K) (a b : Station K) (hab : a.id ≠ b.id) (hst : cfg.station
   ⟨by rw [hst]; exact List.Perm.swap 0 1 [], by simp [Ledger.StationsNodup, hst, hab], constNoise_of_short (by simp [hno])⟩
 
 end simulator
+
+section shift
+open Acn.Sim Acn.SimShift
+variable {K : Type} [Field K] [LinearOrder K] [IsStrictOrderedRing K] [HasExp K]
+
+/-- The whole simulator commutes with a time shift FROM ANY PAIR OF RELATED STATES: every
+    `max_recompute`, every fuel, errors included (same error class in the same relative period).
+    `ShEquiv k V pre s s'`: core of `s'` = core of `s` with every timestamp (iteration, queue, event
+    history, `_last_schedule_update`, invocation periods) moved by `k`; pilot and rate matrices =
+    `shiftMat k` (k zero columns in front); EV records equal up to their shifted arrival / departure
+    fields; peak, `EVSE.current_pilot`, number of random draws equal. -/
+theorem run_shift_from (k : Nat) (cfg : Cfg K) (hd : DepNonneg cfg.core)
+    {sched sched' : View K → Except EventCore.Err (Schedule K)} (hs : SchedShiftInvariant k sched sched')
+    (V : List Nat) (pre : List (List (Option String))) (n : Nat) {s s' : State K}
+    (he : ShEquiv k V pre s s') (hp : PendNonneg s.core) :
+    (Sim.run (shiftCfgS k cfg) sched' n s').2 = (Sim.run cfg sched n s).2 ∧
+    ShEquiv k V pre (Sim.run cfg sched n s).1 (Sim.run (shiftCfgS k cfg) sched' n s').1 :=
+  run_shift_sim hd hs n he hp
+
+/-- CAPSTONE (shift, `max_recompute = None`).  Shift every session (arrival, departure, estimated
+    departure) and every recompute event by `k` periods and hand the simulator a scheduler that
+    depends on its view through relative time only (`SchedShiftInvariant`).  Then the run of the FULL
+    simulator model on the shifted scenario, with `k` more units of fuel, raises iff the original
+    does (same error), and its final state is the shift of the original final state: pilot / rate
+    matrices with `k` ZERO columns in front, event timestamps / iteration / invocation periods moved
+    by `k`, `k` all-vacant rows in front of the occupancy log, energies, peak, draws equal.
+    `ShiftOK`: the scenario has an event, no negative timestamps, every EVSE accepts the idle pilot 0
+    (an EVSE with `min_rate > 0` aborts ANY run in period 0, DESIGN §8). -/
+theorem run_shift (k : Nat) (cfg : Cfg K) (h : ShiftOK cfg)
+    {sched sched' : View K → Except EventCore.Err (Schedule K)} (hs : SchedShiftInvariant k sched sched')
+    (hmr : cfg.maxRecompute = none) (n : Nat) :
+    (Sim.run (shiftCfgS k cfg) sched' (k + n) (Sim.init (shiftCfgS k cfg))).2 = (Sim.run cfg sched n (Sim.init cfg)).2 ∧
+    ShEquiv k [] (List.replicate k (noneRow cfg)) (Sim.run cfg sched n (Sim.init cfg)).1
+      (Sim.run (shiftCfgS k cfg) sched' (k + n) (Sim.init (shiftCfgS k cfg))).1 := by
+  obtain ⟨sk, hrun, he, hnone⟩ := idle_prefix (k := k) (sched' := sched') h (fun hne => absurd hmr hne)
+  obtain ⟨h1, h2⟩ := hnone hmr
+  rw [h1, h2] at he
+  rw [hrun n]
+  exact run_shift_sim h.dep hs n he (fun e he' => h.nonneg e he')
+
+/-- CAPSTONE (shift, ANY `max_recompute`, anchored).  With `max_recompute = m` the periodic
+    invocations before the first event are anchored at period 0, so the shifted run consults the
+    scheduler during its idle prefix (`SchedIdle`: it answers `{}` there) and reaches the first event
+    with a different `_last_schedule_update`.  If something happens in period 0 of the original
+    scenario (`hanchor`: the events of period 0 set `_resolve`), that difference is erased in that very
+    period: every run that completes on the original scenario completes on the shifted one, and the
+    final states are `ShEquiv k V pre` where `V` are the idle invocations of the prefix. -/
+theorem run_shift_anchored (k : Nat) (cfg : Cfg K) (h : ShiftOK cfg)
+    {sched sched' : View K → Except EventCore.Err (Schedule K)} (hs : SchedShiftInvariant k sched sched')
+    (hsi : SchedIdle k sched')
+    (hanchor : (Sim.eventsStage cfg (Sim.init cfg)).1.core.resolve = true)
+    (n : Nat) (r : State K) (hr : Sim.run cfg sched (n + 1) (Sim.init cfg) = (r, none)) :
+    ∃ r' V, Sim.run (shiftCfgS k cfg) sched' (k + (n + 1)) (Sim.init (shiftCfgS k cfg)) = (r', none) ∧
+      ShEquiv k V (List.replicate k (noneRow cfg)) r r' := by
+  obtain ⟨sk, hrun, he, _⟩ := idle_prefix (k := k) (sched' := sched') h (fun _ => hsi)
+  have hp0 : PendNonneg (Sim.init cfg).core := fun e he' => h.nonneg e he'
+  -- the shifted run from the state with `_last_schedule_update` erased
+  obtain ⟨h1, h2⟩ := run_shift_sim (cfg := cfg) h.dep hs (n + 1) he hp0
+  rw [hr] at h1 h2
+  -- the first period does not see the difference
+  have hsk : setLU sk.core.lastUpd (setLU none sk) = sk := rfl
+  have hg0 : guard (Sim.init cfg).core = true := by
+    unfold EventCore.guard
+    have : (Sim.init cfg).core.pending = EventCore.initPending cfg.core := rfl
+    rw [this]
+    cases hP : EventCore.initPending cfg.core with
+    | nil => exact absurd hP h.nonempty
+    | cons a l => simp
+  have hgk : guard (setLU none sk).core = true := by rw [he.core, guard_sh]; exact hg0
+  have hgk' : guard sk.core = true := hgk
+  obtain ⟨b1, b2⟩ := body_shift_sim (cfg := cfg) h.dep hs he hp0
+  obtain ⟨e1, e2⟩ := eventsStage_shift_sim (cfg := cfg) he
+  have hres : (Sim.eventsStage (shiftCfgS k cfg) (setLU none sk)).1.core.resolve = true := by
+    rw [e2.core]; exact hanchor
+  have hbody0 : (Sim.body cfg sched (Sim.init cfg)).2 = none := by
+    have := hr
+    simp only [Sim.run, hg0, if_true] at this
+    obtain ⟨s1, e1', hb⟩ : ∃ s1 e1', Sim.body cfg sched (Sim.init cfg) = (s1, e1') := ⟨_, _, rfl⟩
+    rw [hb] at this ⊢
+    cases e1' with
+    | none => rfl
+    | some x => simp at this
+  rw [hbody0] at b1
+  obtain ⟨r1', eb, hb'⟩ : ∃ r1' eb, Sim.body (shiftCfgS k cfg) sched' (setLU none sk) = (r1', eb) := ⟨_, _, rfl⟩
+  rw [hb'] at b1
+  simp only at b1
+  subst b1
+  have hbk : Sim.body (shiftCfgS k cfg) sched' sk = (r1', none) := by
+    have := body_setLU (shiftCfgS k cfg) sched' sk.core.lastUpd hb' hres
+    rw [hsk] at this
+    exact this
+  have hruneq : Sim.run (shiftCfgS k cfg) sched' (n + 1) sk =
+      Sim.run (shiftCfgS k cfg) sched' (n + 1) (setLU none sk) := by
+    simp only [Sim.run, hgk, hgk', if_true, hbk, hb']
+  refine ⟨(Sim.run (shiftCfgS k cfg) sched' (n + 1) (setLU none sk)).1, sk.core.invoked, ?_, h2⟩
+  rw [hrun (n + 1), hruneq]
+  exact Prod.ext rfl h1
+
+theorem processAll_sets_resolve (cfg : EventCore.Cfg) : ∀ (es : List Event) (c c1 : Core),
+    EventCore.processAll cfg es c = (c1, none) → es ≠ [] → c1.resolve = true := by
+  intro es
+  induction es with
+  | nil => intro c c1 _ h; exact absurd rfl h
+  | cons e es ih =>
+    intro c c1 h _
+    simp only [EventCore.processAll] at h
+    obtain ⟨c2, r, hs⟩ : ∃ c2 r, EventCore.step cfg e c = (c2, r) := ⟨_, _, rfl⟩
+    rw [hs] at h
+    cases r with
+    | some err => simp at h
+    | none =>
+      simp only at h
+      have h2 := (step_flags hs).1
+      cases es with
+      | nil => simp only [EventCore.processAll, Prod.mk.injEq, and_true] at h; rw [← h]; exact h2
+      | cons d ds => exact ih c2 c1 h (by simp)
+
+/-- the anchor of `run_shift_anchored` from the data: an event with timestamp 0 and a period 0 whose
+    events raise nothing -/
+theorem anchor_of_event (cfg : Cfg K) {e : Event} (he : e ∈ EventCore.initPending cfg.core) (h0 : e.ts = 0)
+    (hok : (Sim.eventsStage cfg (Sim.init cfg)).2 = none) :
+    (Sim.eventsStage cfg (Sim.init cfg)).1.core.resolve = true := by
+  have hc := Sim.eventsStage_core cfg (Sim.init cfg)
+  have h1 : (Sim.eventsStage cfg (Sim.init cfg)).1.core = (EventCore.eventsStage cfg.core (Sim.init cfg).core).1 := by
+    rw [← hc]
+  have h2 : (EventCore.eventsStage cfg.core (Sim.init cfg).core).2 = none := by rw [← hc]; exact hok
+  rw [h1]
+  unfold EventCore.eventsStage at h2 ⊢
+  obtain ⟨c1, r, hp⟩ : ∃ c1 r, EventCore.processAll cfg.core
+      (popCurrent (Sim.init cfg).core.iter (Sim.init cfg).core.pending).1
+      { (Sim.init cfg).core with pending := (popCurrent (Sim.init cfg).core.iter (Sim.init cfg).core.pending).2 } = (c1, r) :=
+    ⟨_, _, rfl⟩
+  rw [hp] at h2 ⊢
+  simp only at h2
+  subst h2
+  refine processAll_sets_resolve cfg.core _ _ c1 hp ?_
+  intro hnil
+  have hm : e ∈ (popCurrent (Sim.init cfg).core.iter (Sim.init cfg).core.pending).1 := by
+    simp only [popCurrent, mem_sortByKey, List.mem_filter, decide_eq_true_eq]
+    exact ⟨he, by rw [h0]; exact le_refl _⟩
+  rw [hnil] at hm
+  simp at hm
+
+/-- a scheduler that follows a script in RELATIVE time (and answers `{}` before the origin `k`) -/
+def scriptedRel (k : Nat) (script : List (Nat × Option (Schedule K))) (dflt : Schedule K) :
+    View K → Except EventCore.Err (Schedule K) := fun v =>
+  if v.iter < k then .ok [] else scripted script dflt { v with iter := v.iter - k }
+
+/-- the scripted (relative-time) scheduler and the empty scheduler are shift-invariant and idle -/
+theorem scripted_schedShiftInvariant (k : Nat) (script : List (Nat × Option (Schedule K))) (dflt : Schedule K) :
+    SchedShiftInvariant k (scripted script dflt) (scriptedRel k script dflt) ∧
+    SchedIdle k (scriptedRel k script dflt) ∧
+    SchedShiftInvariant k (emptySched (K := K)) emptySched ∧ SchedIdle k (emptySched (K := K)) := by
+  refine ⟨?_, ?_, fun _ _ _ => rfl, fun _ _ _ => rfl⟩
+  · intro v v' hv
+    have h1 : ¬ v.iter + k < k := by omega
+    simp only [scriptedRel, scripted, hv.iter, Nat.add_sub_cancel, h1, if_false]
+  · intro v _ hk
+    simp only [scriptedRel, hk, if_true]
+
+/-- the hypotheses of the two capstones are satisfiable -/
+example (cfg : Cfg K) (x : Evse.Ev K) (hx : cfg.evs = [x]) (hr : cfg.recomputes = []) (ha : 0 ≤ x.arrival)
+    (hdp : 0 ≤ x.departure) (hst : cfg.stations = []) : ShiftOK cfg :=
+  ⟨by simp [EventCore.initPending, Cfg.core, hx],
+   by
+    intro e he
+    simp only [EventCore.initPending, Cfg.core, hx, hr, List.map_cons, List.map_nil, List.append_nil,
+      List.mem_singleton] at he
+    subst he
+    exact ha,
+   by
+    intro y hy
+    simp only [Cfg.core, hx, List.map_cons, List.map_nil, List.mem_singleton] at hy
+    subst hy
+    exact hdp,
+   by intro st hs'; rw [hst] at hs'; simp at hs'⟩
+
+end shift
+
+section sessions_sim
+open Acn.Sim
+variable {K : Type} [Field K] [LinearOrder K] [IsStrictOrderedRing K] [HasExp K]
+
+/-- Sim-level statement for permuted session / recompute / station listings, CORE PART of the
+    observable: whenever the two runs of the full simulator complete (ANY two scheduler parameters —
+    not even the same one), their cores are `CoreEquiv`: same iteration, occupancy keyed by station,
+    `_resolve`, `_last_schedule_update`, invocation periods; queue, event history and `ev_history`
+    equal as multisets.
+    WHAT REMAINS for the full `run_perm_sessions` (not proved): that pilots, rates, peak and the EV
+    records (up to the EV-list permutation) are equal too, for a scheduler that answers views equal
+    up to the order of … with the same schedule.  The missing step is `EVSE.current_pilot` across a
+    period's events: `Sim.stepEv` zeroes it at the station of every hitting unplug, in heap order, so
+    one needs either the commutation of `stepEv` over two key-sorted permutations of the period's
+    events (`plugins_commute` / `unplugs_commute` lifted to `Sim.stepEv`, plus "sorted permutations
+    differ by swaps inside ties") or a closed form of `evsePilot` after `Sim.eventsStage` under
+    C01's `Inv`; `update_pilots`, `storeRates` and the scheduling stage then go through exactly as
+    in `run_equivariant_stations` with `σ = id` and `evOf` invariant under a permutation of an EV
+    list with distinct ids. -/
+theorem run_perm_sessions_core {cfg cfg' : Cfg K} (hv : Valid cfg.core) (hp : CfgPerm cfg.core cfg'.core)
+    (sched sched' : View K → Except EventCore.Err (Schedule K)) (n : Nat)
+    (h : (Sim.run cfg sched n (Sim.init cfg)).2 = none)
+    (h' : (Sim.run cfg' sched' n (Sim.init cfg')).2 = none) :
+    CoreEquiv (Sim.run cfg sched n (Sim.init cfg)).1.core (Sim.run cfg' sched' n (Sim.init cfg')).1.core := by
+  obtain ⟨d, d', hr, hr', he⟩ := run_perm_sessions_partial hv hp (sched := noFail) (apply := noFail)
+    (fun _ => rfl) (fun _ => rfl) n
+  have e1 := Sim.run_core cfg sched n (Sim.init cfg) h
+  have e2 := Sim.run_core cfg' sched' n (Sim.init cfg') h'
+  rw [Sim.init_core] at e1 e2
+  rw [hr] at e1
+  rw [hr'] at e2
+  have a1 : d = (Sim.run cfg sched n (Sim.init cfg)).1.core := congrArg Prod.fst e1
+  have a2 : d' = (Sim.run cfg' sched' n (Sim.init cfg')).1.core := congrArg Prod.fst e2
+  rw [← a1, ← a2]
+  exact he
+
+end sessions_sim
 
 section ties
 open Acn.Sorted
